@@ -117,21 +117,47 @@ impl SymExpr {
                 }
             }
             Self::Neg(x) => {
-                if x.is_positive() {
-                    (i32::MIN, -1)
-                } else {
-                    (i32::MIN, i32::MAX)
-                }
+                let (min, max) = x.range();
+                (max.saturating_neg(), min.saturating_neg())
             }
-            Self::Add(lhs, rhs)
-            | Self::Mul(lhs, rhs)
-            | Self::Max(lhs, rhs)
-            | Self::Min(lhs, rhs)
-            | Self::Div(lhs, rhs)
-            | Self::DivCeil(lhs, rhs) => {
+            Self::Add(lhs, rhs) => {
+                let (lhs_min, lhs_max) = lhs.range();
+                let (rhs_min, rhs_max) = rhs.range();
+                (
+                    lhs_min.saturating_add(rhs_min),
+                    lhs_max.saturating_add(rhs_max),
+                )
+            }
+            Self::Mul(lhs, rhs) => {
+                let (lhs_min, lhs_max) = lhs.range();
+                let (rhs_min, rhs_max) = rhs.range();
+                let products = [
+                    lhs_min as i64 * rhs_min as i64,
+                    lhs_min as i64 * rhs_max as i64,
+                    lhs_max as i64 * rhs_min as i64,
+                    lhs_max as i64 * rhs_max as i64,
+                ];
+                let min = products.into_iter().min().unwrap();
+                let max = products.into_iter().max().unwrap();
+                (clamp_to_i32(min), clamp_to_i32(max))
+            }
+            Self::Max(lhs, rhs) | Self::Min(lhs, rhs) => {
                 let (lhs_min, lhs_max) = lhs.range();
                 let (rhs_min, rhs_max) = rhs.range();
                 (lhs_min.min(rhs_min), lhs_max.max(rhs_max))
+            }
+            Self::Div(lhs, rhs) | Self::DivCeil(lhs, rhs) => {
+                let (lhs_min, lhs_max) = lhs.range();
+                let (rhs_min, _rhs_max) = rhs.range();
+                if rhs_min >= 0 {
+                    // The quotient lies between zero and the dividend.
+                    (lhs_min.min(0), lhs_max.max(0))
+                } else {
+                    // The magnitude of the quotient is at most that of the
+                    // dividend.
+                    let bound = (lhs_min as i64).abs().max((lhs_max as i64).abs());
+                    (clamp_to_i32(-bound), clamp_to_i32(bound))
+                }
             }
             Self::Sub(_lhs, _rhs) => {
                 // Note: Unlike for addition, subtraction involving two
@@ -635,6 +661,11 @@ impl SymExpr {
             _ => false,
         }
     }
+}
+
+/// Convert `x` to an `i32`, saturating at the bounds of the `i32` range.
+fn clamp_to_i32(x: i64) -> i32 {
+    x.clamp(i32::MIN as i64, i32::MAX as i64) as i32
 }
 
 /// Sort terms in an order that makes simplification easier, by making terms
